@@ -106,38 +106,60 @@ fn ts_to_components(ts: f64) -> Option<DateComponents> {
     })
 }
 
-/// Convert date components to timestamp (ms since epoch)
-fn components_to_ts(
-    year: i32,
-    month: i32,
-    day: i32,
-    hour: u32,
-    minute: u32,
-    second: u32,
-    ms: u32,
-) -> f64 {
-    // Handle 2-digit years (0-99 map to 1900-1999)
-    let year = if (0..100).contains(&year) {
-        year + 1900
+/// The year arguments 0..=99 of the Date constructor and Date.UTC mean 1900..=1999
+fn full_year(year: f64) -> f64 {
+    let y = year.trunc();
+    if (0.0..=99.0).contains(&y) {
+        1900.0 + y
     } else {
         year
-    };
+    }
+}
+
+/// Convert date components to a time value (ms since epoch): MakeTime, MakeDay,
+/// MakeDate and TimeClip of ECMAScript 21.4.1. A component that is not finite,
+/// or a result beyond 8.64e15 ms from the epoch, gives NaN.
+fn components_to_ts(
+    year: f64,
+    month: f64,
+    day: f64,
+    hour: f64,
+    minute: f64,
+    second: f64,
+    ms: f64,
+) -> f64 {
+    let parts = [year, month, day, hour, minute, second, ms];
+    if parts.iter().any(|p| !p.is_finite()) {
+        return f64::NAN;
+    }
+    let (year, month, day) = (year.trunc(), month.trunc(), day.trunc());
 
     // Normalize month (0-indexed from JS, can overflow)
-    let total_months = year as i64 * 12 + month as i64;
-    let norm_year = total_months.div_euclid(12) as i32;
-    let norm_month = (total_months.rem_euclid(12) + 1) as u32;
+    let norm_year = year + (month / 12.0).floor();
+    // Years this far out are beyond the time value range whatever the day is
+    if norm_year.abs() > 400_000.0 {
+        return f64::NAN;
+    }
+    let norm_month = month.rem_euclid(12.0) as u32 + 1;
 
     // Calculate days, allowing day overflow
-    let base_days = ymd_to_days(norm_year, norm_month, 1);
-    let total_days = base_days + (day - 1) as i64;
+    let base_days = ymd_to_days(norm_year as i32, norm_month, 1);
+    let total_days = base_days as f64 + day - 1.0;
 
-    let time_ms = hour as i64 * MS_PER_HOUR
-        + minute as i64 * MS_PER_MINUTE
-        + second as i64 * MS_PER_SECOND
-        + ms as i64;
+    let time_ms = hour.trunc() * MS_PER_HOUR as f64
+        + minute.trunc() * MS_PER_MINUTE as f64
+        + second.trunc() * MS_PER_SECOND as f64
+        + ms.trunc();
 
-    (total_days * MS_PER_DAY + time_ms) as f64
+    time_clip(total_days * MS_PER_DAY as f64 + time_ms)
+}
+
+/// TimeClip: a time value is an integral number of ms within 8.64e15 of the epoch, or NaN
+fn time_clip(time: f64) -> f64 {
+    if !time.is_finite() || time.abs() > 8.64e15 {
+        return f64::NAN;
+    }
+    time.trunc() + 0.0
 }
 
 const WEEKDAY_NAMES: [&str; 7] = ["Sun", "Mon", "Tue", "Wed", "Thu", "Fri", "Sat"];
@@ -210,13 +232,13 @@ fn parse_iso8601(s: &str) -> Option<f64> {
     };
 
     Some(components_to_ts(
-        year,
-        (month - 1) as i32,
-        day as i32,
-        hour,
-        minute,
-        second,
-        ms,
+        year as f64,
+        (month - 1) as f64,
+        day as f64,
+        hour as f64,
+        minute as f64,
+        second as f64,
+        ms as f64,
     ))
 }
 
@@ -359,19 +381,19 @@ pub fn date_constructor(
         interp.now_millis() as f64
     } else if args.len() == 1 {
         match args.first() {
-            Some(JsValue::Number(n)) => *n,
+            Some(JsValue::Number(n)) => time_clip(*n),
             Some(JsValue::String(s)) => parse_date_string(s.as_ref()),
             _ => f64::NAN,
         }
     } else {
         // new Date(year, month, day?, hours?, minutes?, seconds?, ms?)
-        let year = args.first().map(|v| v.to_number()).unwrap_or(f64::NAN) as i32;
-        let month = args.get(1).map(|v| v.to_number()).unwrap_or(0.0) as i32;
-        let day = args.get(2).map(|v| v.to_number()).unwrap_or(1.0) as i32;
-        let hours = args.get(3).map(|v| v.to_number()).unwrap_or(0.0) as u32;
-        let minutes = args.get(4).map(|v| v.to_number()).unwrap_or(0.0) as u32;
-        let seconds = args.get(5).map(|v| v.to_number()).unwrap_or(0.0) as u32;
-        let ms = args.get(6).map(|v| v.to_number()).unwrap_or(0.0) as u32;
+        let year = full_year(args.first().map(|v| v.to_number()).unwrap_or(f64::NAN));
+        let month = args.get(1).map(|v| v.to_number()).unwrap_or(0.0);
+        let day = args.get(2).map(|v| v.to_number()).unwrap_or(1.0);
+        let hours = args.get(3).map(|v| v.to_number()).unwrap_or(0.0);
+        let minutes = args.get(4).map(|v| v.to_number()).unwrap_or(0.0);
+        let seconds = args.get(5).map(|v| v.to_number()).unwrap_or(0.0);
+        let ms = args.get(6).map(|v| v.to_number()).unwrap_or(0.0);
 
         components_to_ts(year, month, day, hours, minutes, seconds, ms)
     };
@@ -399,13 +421,13 @@ pub fn date_utc(
     _this: JsValue,
     args: &[JsValue],
 ) -> Result<Guarded, JsError> {
-    let year = args.first().map(|v| v.to_number()).unwrap_or(f64::NAN) as i32;
-    let month = args.get(1).map(|v| v.to_number()).unwrap_or(0.0) as i32;
-    let day = args.get(2).map(|v| v.to_number()).unwrap_or(1.0) as i32;
-    let hours = args.get(3).map(|v| v.to_number()).unwrap_or(0.0) as u32;
-    let minutes = args.get(4).map(|v| v.to_number()).unwrap_or(0.0) as u32;
-    let seconds = args.get(5).map(|v| v.to_number()).unwrap_or(0.0) as u32;
-    let ms = args.get(6).map(|v| v.to_number()).unwrap_or(0.0) as u32;
+    let year = full_year(args.first().map(|v| v.to_number()).unwrap_or(f64::NAN));
+    let month = args.get(1).map(|v| v.to_number()).unwrap_or(0.0);
+    let day = args.get(2).map(|v| v.to_number()).unwrap_or(1.0);
+    let hours = args.get(3).map(|v| v.to_number()).unwrap_or(0.0);
+    let minutes = args.get(4).map(|v| v.to_number()).unwrap_or(0.0);
+    let seconds = args.get(5).map(|v| v.to_number()).unwrap_or(0.0);
+    let ms = args.get(6).map(|v| v.to_number()).unwrap_or(0.0);
 
     let timestamp = components_to_ts(year, month, day, hours, minutes, seconds, ms);
     Ok(Guarded::unguarded(JsValue::Number(timestamp)))
@@ -577,7 +599,7 @@ pub fn date_set_time(
     args: &[JsValue],
 ) -> Result<Guarded, JsError> {
     let new_time = args.first().map(|v| v.to_number()).unwrap_or(f64::NAN);
-    let ts = set_date_timestamp(&this, new_time)?;
+    let ts = set_date_timestamp(&this, time_clip(new_time))?;
     Ok(Guarded::unguarded(JsValue::Number(ts)))
 }
 
@@ -591,18 +613,21 @@ pub fn date_set_full_year(
         return Ok(Guarded::unguarded(JsValue::Number(f64::NAN)));
     };
 
-    let new_year = args.first().map(|v| v.to_number() as i32).unwrap_or(c.year);
+    let new_year = args.first().map(|v| v.to_number()).unwrap_or(c.year as f64);
     let new_month = args
         .get(1)
-        .map(|v| v.to_number() as i32)
-        .unwrap_or((c.month - 1) as i32);
-    let new_day = args
-        .get(2)
-        .map(|v| v.to_number() as i32)
-        .unwrap_or(c.day as i32);
+        .map(|v| v.to_number())
+        .unwrap_or((c.month - 1) as f64);
+    let new_day = args.get(2).map(|v| v.to_number()).unwrap_or(c.day as f64);
 
     let new_ts = components_to_ts(
-        new_year, new_month, new_day, c.hour, c.minute, c.second, c.ms,
+        new_year,
+        new_month,
+        new_day,
+        c.hour as f64,
+        c.minute as f64,
+        c.second as f64,
+        c.ms as f64,
     );
     let ts = set_date_timestamp(&this, new_ts)?;
     Ok(Guarded::unguarded(JsValue::Number(ts)))
@@ -620,14 +645,19 @@ pub fn date_set_month(
 
     let new_month = args
         .first()
-        .map(|v| v.to_number() as i32)
-        .unwrap_or((c.month - 1) as i32);
-    let new_day = args
-        .get(1)
-        .map(|v| v.to_number() as i32)
-        .unwrap_or(c.day as i32);
+        .map(|v| v.to_number())
+        .unwrap_or((c.month - 1) as f64);
+    let new_day = args.get(1).map(|v| v.to_number()).unwrap_or(c.day as f64);
 
-    let new_ts = components_to_ts(c.year, new_month, new_day, c.hour, c.minute, c.second, c.ms);
+    let new_ts = components_to_ts(
+        c.year as f64,
+        new_month,
+        new_day,
+        c.hour as f64,
+        c.minute as f64,
+        c.second as f64,
+        c.ms as f64,
+    );
     let ts = set_date_timestamp(&this, new_ts)?;
     Ok(Guarded::unguarded(JsValue::Number(ts)))
 }
@@ -642,19 +672,16 @@ pub fn date_set_date(
         return Ok(Guarded::unguarded(JsValue::Number(f64::NAN)));
     };
 
-    let new_day = args
-        .first()
-        .map(|v| v.to_number() as i32)
-        .unwrap_or(c.day as i32);
+    let new_day = args.first().map(|v| v.to_number()).unwrap_or(c.day as f64);
 
     let new_ts = components_to_ts(
-        c.year,
-        (c.month - 1) as i32,
+        c.year as f64,
+        (c.month - 1) as f64,
         new_day,
-        c.hour,
-        c.minute,
-        c.second,
-        c.ms,
+        c.hour as f64,
+        c.minute as f64,
+        c.second as f64,
+        c.ms as f64,
     );
     let ts = set_date_timestamp(&this, new_ts)?;
     Ok(Guarded::unguarded(JsValue::Number(ts)))
@@ -670,21 +697,21 @@ pub fn date_set_hours(
         return Ok(Guarded::unguarded(JsValue::Number(f64::NAN)));
     };
 
-    let new_hour = args.first().map(|v| v.to_number() as u32).unwrap_or(c.hour);
+    let new_hour = args.first().map(|v| v.to_number()).unwrap_or(c.hour as f64);
     let new_min = args
         .get(1)
-        .map(|v| v.to_number() as u32)
-        .unwrap_or(c.minute);
+        .map(|v| v.to_number())
+        .unwrap_or(c.minute as f64);
     let new_sec = args
         .get(2)
-        .map(|v| v.to_number() as u32)
-        .unwrap_or(c.second);
-    let new_ms = args.get(3).map(|v| v.to_number() as u32).unwrap_or(c.ms);
+        .map(|v| v.to_number())
+        .unwrap_or(c.second as f64);
+    let new_ms = args.get(3).map(|v| v.to_number()).unwrap_or(c.ms as f64);
 
     let new_ts = components_to_ts(
-        c.year,
-        (c.month - 1) as i32,
-        c.day as i32,
+        c.year as f64,
+        (c.month - 1) as f64,
+        c.day as f64,
         new_hour,
         new_min,
         new_sec,
@@ -706,19 +733,19 @@ pub fn date_set_minutes(
 
     let new_min = args
         .first()
-        .map(|v| v.to_number() as u32)
-        .unwrap_or(c.minute);
+        .map(|v| v.to_number())
+        .unwrap_or(c.minute as f64);
     let new_sec = args
         .get(1)
-        .map(|v| v.to_number() as u32)
-        .unwrap_or(c.second);
-    let new_ms = args.get(2).map(|v| v.to_number() as u32).unwrap_or(c.ms);
+        .map(|v| v.to_number())
+        .unwrap_or(c.second as f64);
+    let new_ms = args.get(2).map(|v| v.to_number()).unwrap_or(c.ms as f64);
 
     let new_ts = components_to_ts(
-        c.year,
-        (c.month - 1) as i32,
-        c.day as i32,
-        c.hour,
+        c.year as f64,
+        (c.month - 1) as f64,
+        c.day as f64,
+        c.hour as f64,
         new_min,
         new_sec,
         new_ms,
@@ -739,16 +766,16 @@ pub fn date_set_seconds(
 
     let new_sec = args
         .first()
-        .map(|v| v.to_number() as u32)
-        .unwrap_or(c.second);
-    let new_ms = args.get(1).map(|v| v.to_number() as u32).unwrap_or(c.ms);
+        .map(|v| v.to_number())
+        .unwrap_or(c.second as f64);
+    let new_ms = args.get(1).map(|v| v.to_number()).unwrap_or(c.ms as f64);
 
     let new_ts = components_to_ts(
-        c.year,
-        (c.month - 1) as i32,
-        c.day as i32,
-        c.hour,
-        c.minute,
+        c.year as f64,
+        (c.month - 1) as f64,
+        c.day as f64,
+        c.hour as f64,
+        c.minute as f64,
         new_sec,
         new_ms,
     );
@@ -766,15 +793,15 @@ pub fn date_set_milliseconds(
         return Ok(Guarded::unguarded(JsValue::Number(f64::NAN)));
     };
 
-    let new_ms = args.first().map(|v| v.to_number() as u32).unwrap_or(c.ms);
+    let new_ms = args.first().map(|v| v.to_number()).unwrap_or(c.ms as f64);
 
     let new_ts = components_to_ts(
-        c.year,
-        (c.month - 1) as i32,
-        c.day as i32,
-        c.hour,
-        c.minute,
-        c.second,
+        c.year as f64,
+        (c.month - 1) as f64,
+        c.day as f64,
+        c.hour as f64,
+        c.minute as f64,
+        c.second as f64,
         new_ms,
     );
     let ts = set_date_timestamp(&this, new_ts)?;
